@@ -28,6 +28,7 @@ import (
 	"net/url"
 	"os"
 	"path/filepath"
+	"runtime"
 	"runtime/debug"
 	"sort"
 	"strings"
@@ -47,6 +48,57 @@ import (
 // traf: a part whose tfdt (or tfhd) is missing makes /get panic with a nil pointer dereference; in production the
 // exit-on-panic wrapper of the HTTP server then terminates the whole process.
 const c28KeyNilTraf = "c28-muxparts-nil-tfhd-tfdt"
+
+// c28KeyAlloc: confirmed (TestVerifC28RegressHugeMoovSize): segmentFMP4ReadHeader allocates ftypSize+moovSize bytes and
+// segmentFMP4ReadDurationFromParts allocates tfhd/tfdt/trun size-8 bytes (wrapping to 4 GB for sizes below 8) straight
+// from 32-bit size fields of the file, without comparing them with the file size: one damaged size field in a 2 kB
+// segment makes every /list and /get allocate (and zero) up to 4 GB. Under a memory limit the Go runtime aborts the
+// process with "fatal error: out of memory", which cannot be recovered. Same class: a trun box whose sample count
+// does not fit the box (e.g. a traf retagged as trun) is handed to go-mp4, which builds count entries (up to 2^32,
+// 16 bytes each, zero bytes consumed per entry when the flags select no field): /get spins for minutes and grows
+// until the process is killed.
+const c28KeyAlloc = "c28-size-fields-drive-allocation"
+
+const c28AllocLimit = 256 << 20 // bytes a battery of requests over a < 100 kB directory may allocate
+
+// c28HugeSizeField finds size fields that drive those allocations; clamp repairs them (used only while the
+// finding is listed as known, to keep searching behind it).
+func c28HugeSizeField(data []byte, clamp bool) bool {
+	found := false
+	for i := 4; i+4 <= len(data); i++ {
+		tag := string(data[i : i+4])
+		small := tag == "tfhd" || tag == "tfdt" || tag == "trun"
+		if !small && tag != "ftyp" && tag != "moov" {
+			continue
+		}
+		size := binary.BigEndian.Uint32(data[i-4:])
+		if size > 1<<25 || (small && size < 8) {
+			found = true
+			if clamp {
+				binary.BigEndian.PutUint32(data[i-4:], 16)
+			}
+		}
+		// trun sample count that does not fit the box: the mp4 library allocates / iterates count entries
+		// (with no per-sample field selected by the flags an entry takes 0 bytes, so nothing stops the loop)
+		if tag == "trun" && i+12 <= len(data) {
+			flags := binary.BigEndian.Uint32(data[i+4:]) & 0xffffff
+			count := binary.BigEndian.Uint32(data[i+8:])
+			per := uint64(0)
+			for _, f := range []uint32{0x100, 0x200, 0x400, 0x800} {
+				if flags&f != 0 {
+					per += 4
+				}
+			}
+			if count > 4096 && (per == 0 || uint64(count)*per > uint64(size)) {
+				found = true
+				if clamp {
+					binary.BigEndian.PutUint32(data[i+8:], 0)
+				}
+			}
+		}
+	}
+	return found
+}
 
 type c28BaseSeg struct {
 	Name string // file name
@@ -394,6 +446,26 @@ func c28Requests(dir string, starts []time.Time) error {
 	return perr
 }
 
+// c28Guarded runs the battery with a watchdog: the battery normally takes milliseconds; a handler that is still
+// busy after 90 s (>= 100x slack) never answers in any practical sense. The busy goroutine cannot be stopped, so the
+// process is ended after reporting (exit status 1 = violation for the driver).
+func c28Guarded(dir string, starts []time.Time, desc string) error {
+	done := make(chan error, 1)
+	go func() { done <- c28Requests(dir, starts) }()
+	select {
+	case err := <-done:
+		return err
+	case <-time.After(90 * time.Second):
+		var m runtime.MemStats
+		runtime.ReadMemStats(&m)
+		fmt.Printf("--- FAIL: C28: a handler is still running 90 s after the request (heap %d MB): no answer, unbounded work\ncase: %s\n",
+			m.HeapAlloc>>20, desc)
+		kit.Flush()
+		os.Exit(1)
+		return nil
+	}
+}
+
 func TestVerifC28Survive(t *testing.T) {
 	rec := kit.R("TestVerifC28Survive")
 	t.Cleanup(kit.Flush)
@@ -456,6 +528,13 @@ func TestVerifC28Survive(t *testing.T) {
 					}
 				}
 			}
+			if c28HugeSizeField(data, false) {
+				classes["huge-size-field"] = true
+				if kit.Known(c28KeyAlloc) {
+					c28HugeSizeField(data, true)
+					rec.Excluded(c28KeyAlloc)
+				}
+			}
 			if err := os.WriteFile(filepath.Join(pdir, sg.Name), data, 0o644); err != nil {
 				t.Fatalf("write: %v", err)
 			}
@@ -509,8 +588,15 @@ func TestVerifC28Survive(t *testing.T) {
 		// a panic in a goroutine spawned by a handler kills the process: leave the input behind first
 		kit.Journal("C28 " + d + "\n")
 
-		if err := c28Requests(dir, starts); err != nil {
+		var m0, m1 runtime.MemStats
+		runtime.ReadMemStats(&m0)
+		if err := c28Guarded(dir, starts, d); err != nil {
 			t.Fatalf("%v\ncase: %s", err, d)
+		}
+		runtime.ReadMemStats(&m1)
+		if alloc := m1.TotalAlloc - m0.TotalAlloc; alloc > c28AllocLimit {
+			t.Fatalf("the requests allocated %d MB for a directory of a few kB (under a memory limit the runtime aborts the process: "+
+				"fatal error: out of memory)\ncase: %s", alloc>>20, d)
 		}
 
 		var cl []string
@@ -550,6 +636,41 @@ func TestVerifC28RegressTimescaleZero(t *testing.T) {
 	q := url.Values{"path": {rbPathName}, "start": {st.Format(time.RFC3339Nano)}, "duration": {"10"}}
 	if err := c28Call(srv, "get", q); err != nil {
 		t.Errorf("segment with mvhd timescale 0: %v", err)
+	}
+}
+
+// Pinned: moov size field 0x7fffffff in an otherwise intact 2 kB segment: one /list allocates 2 GB.
+func TestVerifC28RegressHugeMoovSize(t *testing.T) {
+	if kit.Known(c28KeyAlloc) {
+		t.Skip("listed as known finding")
+	}
+	bases, err := c28LoadBases()
+	if err != nil {
+		t.Fatalf("builder: %v", err)
+	}
+	dir, err := os.MkdirTemp(os.Getenv("VERIF_WORKDIR"), "c28r-")
+	if err != nil {
+		t.Fatal(err)
+	}
+	defer os.RemoveAll(dir)
+	pdir := filepath.Join(dir, rbPathName)
+	os.MkdirAll(pdir, 0o755) //nolint:errcheck
+	sg := bases[0].Segs[0]
+	data := append([]byte(nil), sg.Data...)
+	moov := c28BoxesOf(sg.Info, "moov")[0]
+	binary.BigEndian.PutUint32(data[moov.Off:], 0x7fffffff)
+	if err := os.WriteFile(filepath.Join(pdir, sg.Name), data, 0o644); err != nil {
+		t.Fatal(err)
+	}
+	srv := rbNewServer(c28PathConfs(dir))
+	var m0, m1 runtime.MemStats
+	runtime.ReadMemStats(&m0)
+	if err := c28Call(srv, "list", url.Values{"path": {rbPathName}}); err != nil {
+		t.Errorf("%v", err)
+	}
+	runtime.ReadMemStats(&m1)
+	if alloc := m1.TotalAlloc - m0.TotalAlloc; alloc > c28AllocLimit {
+		t.Errorf("/list over one %d-byte segment whose moov size field reads 0x7fffffff allocated %d MB", len(data), alloc>>20)
 	}
 }
 
@@ -623,6 +744,9 @@ func FuzzVerifC28Segment(f *testing.F) {
 		if known && rbWouldDivideByZero(data) {
 			t.Skip()
 		}
+		if kit.Known(c28KeyAlloc) && c28HugeSizeField(data, false) {
+			t.Skip()
+		}
 		dir, err := os.MkdirTemp(os.Getenv("VERIF_WORKDIR"), "c28f-")
 		if err != nil {
 			t.Skip()
@@ -635,8 +759,14 @@ func FuzzVerifC28Segment(f *testing.F) {
 		if err := os.WriteFile(filepath.Join(pdir, name), data, 0o644); err != nil {
 			t.Skip()
 		}
+		var m0, m1 runtime.MemStats
+		runtime.ReadMemStats(&m0)
 		if err := c28Requests(dir, []time.Time{st}); err != nil {
 			t.Fatalf("%v", err)
+		}
+		runtime.ReadMemStats(&m1)
+		if alloc := m1.TotalAlloc - m0.TotalAlloc; alloc > c28AllocLimit {
+			t.Fatalf("the requests allocated %d MB for a %d-byte segment", alloc>>20, len(data))
 		}
 	})
 }
